@@ -52,7 +52,7 @@ def run(ctx, crate, clause="border-offsets"):
                at=b.span, kind="N", sample={"keys": n, "forced": forced_cases, "mismatches": [list(map(str, x)) for x in bad[:4]]})
 
 
-def tiebreaks(ctx, crate, depths=(0, 2, 7), clause="border-offsets"):
+def tiebreaks(ctx, crate, depths=(0, 2, 7, 29), clause="border-offsets"):
     """The tie-breaks of the base-cell step, per finite key and for a few depths (Layer constants folded):
 
     * scale invariance: the one float test that decides which axis is forced (k = -1) or which
@@ -82,8 +82,9 @@ def tiebreaks(ctx, crate, depths=(0, 2, 7), clause="border-offsets"):
         R, D = bc[0].ret, dc[0].ret
         XY = dc[0].args[0]                     # the rotated, scaled position handed to discretize
         X, Y = ('fld', XY, 0), ('fld', XY, 1)
-        for i in range(5):
-            for j in range(5):
+        # x' - y' = x - 4 lies in [-4, 4): i and j go up to 5 ((5, 1) is lon just below 2pi, (1, 5) lon just above 0)
+        for i in range(6):
+            for j in range(6):
                 k = 5 - (i + j)
                 if k not in (-1, 3): continue
                 n_keys += 1
@@ -117,7 +118,7 @@ def tiebreaks(ctx, crate, depths=(0, 2, 7), clause="border-offsets"):
                     ok = (inc(0) and same(1)) if x_is_larger else (inc(1) and same(0))
                     if not ok:
                         bad_push.append((d, (i, j), "with %s the larger coordinate, the cell coordinates used afterwards are %s" % ("x" if x_is_larger else "y", show(v)[:80])))
-    ctx.report(clause, FN + ":tie-breaks-at-base-cell-level", not bad_scale and n_keys >= 12,
+    ctx.report(clause, FN + ":tie-breaks-at-base-cell-level", not bad_scale and n_keys >= 32,
                "%d keys (k = -1 and k = 3, depths %s): the deciding test compares x' - i*nside with y' - j*nside and does not read the cell coordinates" % (n_keys, list(depths)) if not bad_scale else
                "depth %s key %s: %s — the choice of the base cell depends on the depth when the position is a cell corner (e.g. lon = 0, sqrt(3(1 - sin lat)) = 1/2)" % bad_scale[0],
                at=b.span, kind="N", sample={"keys": n_keys, "mismatches": [list(map(str, x)) for x in bad_scale[:3]]})
